@@ -193,6 +193,7 @@ type Coverage map[string]any
 
 // Finish writes the evidence file, prints KNOWN-FINDING lines and exits.
 func (r *Run) Finish(cov Coverage) {
+	r.raceAudit(cov)
 	for _, k := range r.KnownSeen() {
 		fmt.Printf("KNOWN-FINDING: property=%s %s [%s]\n", r.Prop, r.known[k], k)
 	}
@@ -277,4 +278,50 @@ func (r *Run) ReplayVerdict(sig, detail string) {
 	}
 	fmt.Println("replay: no violation on this tree")
 	os.Exit(0)
+}
+
+// raceAudit folds the result of the free-running race-detector audit (run by ./check before the harness)
+// into the evidence; a reported race or a broken mutual exclusion is a violation.
+func (r *Run) raceAudit(cov Coverage) {
+	path := os.Getenv("VERIF_RACE_JSON")
+	if path == "" || r.IsWorker() {
+		return
+	}
+	f, err := os.Open(path)
+	if err != nil {
+		return
+	}
+	defer f.Close()
+	var res []any
+	sc := bufio.NewScanner(f)
+	for sc.Scan() {
+		var e struct {
+			Pkg  string `json:"pkg"`
+			Exit int    `json:"exit"`
+			Dur  string `json:"dur"`
+			Log  string `json:"log"`
+			Out  string `json:"out"`
+		}
+		if json.Unmarshal(sc.Bytes(), &e) != nil {
+			continue
+		}
+		out, _ := os.ReadFile(e.Out)
+		summary := strings.TrimSpace(string(out))
+		switch e.Exit {
+		case 0:
+		case 66:
+			lg, _ := os.ReadFile(e.Log)
+			r.Violation("data-race "+e.Pkg, "the race detector reported a data race in the free-running audit of "+e.Pkg+":\n"+firstLines(string(lg), 60), map[string]any{"audit": e.Pkg, "log": e.Log})
+			summary = "DATA RACE reported"
+		case 67:
+			r.Violation("free-running mutual exclusion "+e.Pkg, summary, map[string]any{"audit": e.Pkg})
+		default:
+			r.Violation("audit-crash "+e.Pkg, fmt.Sprintf("the free-running audit of %s exited with status %d:\n%s", e.Pkg, e.Exit, firstLines(summary, 60)), map[string]any{"audit": e.Pkg})
+		}
+		res = append(res, map[string]any{"package": e.Pkg, "duration": e.Dur, "exit": e.Exit, "summary": firstLines(summary, 3)})
+	}
+	if res != nil {
+		cov["race_audit"] = res
+		cov["race_audit_note"] = "supplementary, free-running and time-boxed (not exhaustive): audits the data-race-freedom assumption of the controlled scheduler; silence is not a proof"
+	}
 }
